@@ -74,7 +74,7 @@ func (e *Engine) mapLen(st *State, mt *types.Map, m Term) Term {
 	l := e.ctx.Define("mlen", Select(st.heapArr(ks.Key, ks.Sort), m))
 	dom := e.mapDom(st, mt, m)
 	k := T("k!q", e.keySort(mt.Key()))
-	st.assume(Le(IntLit(0), l))
+	st.assume(And(Le(IntLit(0), l), Le(l, IntLit(9223372036854775807))))
 	st.assume(Iff(Eq(l, IntLit(0)), Forall([]Term{k}, Not(Select(dom, k)))))
 	st.assume(Implies(Eq(m, IntLit(0)), Eq(l, IntLit(0))))
 	return l
@@ -237,6 +237,12 @@ func (e *Engine) rangeInit(st *State, ins *ssa.Range) Value {
 	if mt, ok := ins.X.Type().Underlying().(*types.Map); ok {
 		m := e.term(st, ins.X)
 		st.iters[ins] = ConstArray(ArrSort(e.keySort(mt.Key()), SBool), TFalse)
+		// ghost: number of keys yielded so far, and the domain at the start of the
+		// iteration (the cardinality facts in next() are only used while the
+		// domain term is unchanged, i.e. the map was not written during the loop)
+		st.ghost["itcnt:"+ins.Name()] = IntLit(0)
+		dks := e.mapDomKS(mt)
+		st.ghost["itdom:"+ins.Name()] = st.heapArr(dks.Key, dks.Sort)
 		return IterV{R: ins, IsMap: true, Map: m, MapT: mt}
 	}
 	// string
@@ -263,6 +269,17 @@ func (e *Engine) next(st *State, ins *ssa.Next) Value {
 		st.assume(Implies(okT, And(Select(dom, k), Not(Select(seen, k)))))
 		st.assume(Implies(Not(okT), Forall([]Term{q}, Implies(Select(dom, q), Select(seen, q)))))
 		st.iters[it.R] = e.ctx.Define("seen", Ite(okT, Store(seen, k, TTrue), seen))
+		if cv, ok := st.ghost["itcnt:"+it.R.Name()]; ok {
+			cnt := cv.(Term)
+			dks := e.mapDomKS(mt)
+			if d0, ok := st.ghost["itdom:"+it.R.Name()]; ok && d0.(Term).S == st.heapArr(dks.Key, dks.Sort).S {
+				// |seen| == cnt, seen is a subset of dom, |dom| == len(m)
+				ln := e.mapLen(st, mt, it.Map)
+				st.assume(Implies(okT, Lt(cnt, ln)))
+				st.assume(Implies(Not(okT), Eq(cnt, ln)))
+			}
+			st.ghost["itcnt:"+it.R.Name()] = e.ctx.Define("itcnt", Ite(okT, Add(cnt, IntLit(1)), cnt))
+		}
 		v := e.mapGet(st, mt, it.Map, k)
 		var kv Value = k
 		if pt, ok := mt.Key().Underlying().(*types.Pointer); ok {
